@@ -26,6 +26,7 @@ type Config struct {
 	Table       string  `json:"table"`                     // "standard" | "short"
 	Amounts     string  `json:"amounts"`                   // "all" (every integer in range) | "classes" (threshold representatives) | "edges" (edges of the legal range only)
 	BurnZero    bool    `json:"burn_count_zero,omitempty"` // options carry BurnCount 0 (e.g. built from a bare literal / JSON without the field)
+	ViaSeat     bool    `json:"via_seat_handle,omitempty"` // player actions go through Game.Player(i).X() instead of Game.X()
 	Scene       *Scene  `json:"scene,omitempty"`           // what else happens in the process / happened to the game object (see scene.go)
 }
 
@@ -119,6 +120,9 @@ func (c *Config) NewStarted() (pf.Game, error) {
 
 func (c *Config) Short() string {
 	s := fmt.Sprintf("n=%d br=%v a=%d sb=%d bb=%d db=%d dead=%v btn=%d %s deck=%s hole=%d/%d %s", c.Seats(), c.Bankroll, c.Ante, c.SB, c.BB, c.DealerBlind, c.DeadSB, c.Button, c.Limit, c.Deck, c.Hole, c.Required, c.Table)
+	if c.ViaSeat {
+		s += " via-seat"
+	}
 	if c.Scene != nil {
 		s += fmt.Sprintf(" scene=%s(n=%d,%d ops)", c.Scene.Kind, c.Scene.Other.Seats(), len(c.Scene.Hist))
 	}
